@@ -7,7 +7,7 @@ import importlib
 
 
 def writer_program(rng, tier):
-    C17 = importlib.import_module("props.C17") if "props.C17" in __import__("sys").modules else importlib.import_module("C17")
+    C17 = importlib.import_module("C17")
     ops, sigs, has_omit = C17.gen_writer(rng, tier)
     return ops, sigs, has_omit
 
